@@ -611,6 +611,15 @@ def check_rule(sc):
         log = []
 
         def transmission(a, b):
+            # with string labels the rule answers with truthy / falsy values that are not the Python singletons
+            # (a numpy comparison result, a count), as user rules written with numpy do
+            ans = _transmission(a, b)
+            if lab == "str":
+                import numpy as _np
+                return _np.bool_(ans) if (a[1] + b[1]) % 2 == 0 else (2 if ans else 0)
+            return ans
+
+        def _transmission(a, b):
             log.append((a, b))
             try:
                 if a[0] != "xi" or b[0] != "zeta":
